@@ -236,7 +236,12 @@ void vf::run_case(Src &s, Ctx &c)
     for (size_t i = 0; i < R.size(); ++i)
         if (R[i].optimizing)
             opti.push_back((int)i);
-    const PlannerInfo &pi = R[opti[s.pick(opti.size())]];
+    size_t pidx = (size_t)opti[s.pick(opti.size())];
+    // exploration aid (never set by ./check): sweep one planner, e.g. VF_FORCE_PLANNER=AITstar ./check C04
+    if (const char *fp = std::getenv("VF_FORCE_PLANNER"))
+        if (findPlanner(fp) >= 0)
+            pidx = (size_t)findPlanner(fp);
+    const PlannerInfo &pi = R[pidx];
     c.context(pi.name);
     unsigned seed = 1 + (unsigned)s.u(0, 1000000);
     ompl::RNG::setSeed(seed);
@@ -282,6 +287,7 @@ void vf::run_case(Src &s, Ctx &c)
         throw Skip{std::string("setup rejected: ") + e.what()};
     }
     int solves = s.in(1, 4);
+    bool notResumable = false;
     {
         // known findings excluded by construction (counted): continued solves of planners that are not resumable
         std::string n = pi.name;
@@ -292,19 +298,21 @@ void vf::run_case(Src &s, Ctx &c)
             c.knownHits[key]++;
             solves = 1;
         }
+        notResumable = key && c.isKnown(key);
     }
     bool haveBest = false;
     ob::Cost bestExact;
     size_t maxSolutions = 0;
-    for (int k = 0; k < solves; ++k)
+    // one (continued) solve() and the judgement of everything the problem definition then holds; false = an exception ended the history
+    auto oneSolve = [&](int k, long limit, bool dropFirst) -> bool
     {
         CountPTC ptc(&c);
-        ptc.limit = (long)(std::exp(s.real(std::log(50.0), std::log(3000.0))) * pi.budgetScale);
+        ptc.limit = limit;
         // a quarter of the continued solves are preceded by the caller dropping the stored paths (ProblemDefinition::clearSolutionPaths(), as the
         // repository's own optimisation tests do between rounds): what the planner reports afterwards must still not be worse than what it
         // reported before. Decided by the already decoded budget, so that saved cases keep their meaning.
         bool dropped = false;
-        if (k > 0 && ptc.limit % 4 == 1)
+        if (dropFirst || (k > 0 && ptc.limit % 4 == 1))
         {
             P->pdef->clearSolutionPaths();
             dropped = true;
@@ -320,7 +328,7 @@ void vf::run_case(Src &s, Ctx &c)
         {
             c.note("solve %d: exception %s\n", k, e.what());
             c.count("outcome:exception");
-            break;
+            return false;
         }
         auto sols = P->pdef->getSolutions();
         c.note("solve %d (budget %ld): %s, %zu solutions\n", k, ptc.limit, statusName(st), sols.size());
@@ -383,6 +391,20 @@ void vf::run_case(Src &s, Ctx &c)
                 haveBest = true;
                 break;
             }
+        return true;
+    };
+    int k = 0;
+    for (; k < solves; ++k)
+        if (!oneSolve(k, (long)(std::exp(s.real(std::log(50.0), std::log(3000.0))) * pi.budgetScale), false))
+            break;
+    // epilogue (decoded last, so that saved cases - which end before it - keep their meaning): a solve with a budget from the top of the range,
+    // the caller drops the stored solutions, a short continued solve. A planner that keeps an incumbent must not come back with something
+    // worse than it had reported (the repository's own optimisation tests clear the solution paths between rounds).
+    if (k == solves && !notResumable && s.chance(80))
+    {
+        c.count("history:epilogue(long solve, clearSolutionPaths, short solve)");
+        if (oneSolve(k, (long)(s.real(1500, 3000) * pi.budgetScale), false))
+            oneSolve(k + 1, (long)(20 + s.in(0, 200)), true);
     }
     c.nontrivial = maxSolutions >= 2;
 }
